@@ -59,3 +59,33 @@ def unimplemented():
             check("printed_form_" + cls.__name__, ex.instruction_repr == repr(ins))
             continue
         check("must_fault_" + cls.__name__, False)
+
+
+@unit("C15/five-stage/fault-report/invalid-ecall-held-behind-older-instruction", expect_reach=("fault",))
+def ecall_fault_under_stall():
+    """the ecall is first held in EX (an older instruction is still in flight) and fails on its stalled re-execution:
+    the error must still name the ecall, not whatever was re-decoded behind it"""
+    from architecture_simulator.simulation.riscv_simulation import RiscvSimulation
+    from architecture_simulator.simulation.runtime_errors import InstructionExecutionException
+    from architecture_simulator.isa.riscv.rv32i_instructions import ADD, ADDI, ECALL, LW
+    from contracts.c02_pipeline import load, R
+    for older in (1, 2):
+        st, regs0 = havoc_state("five_stage_pipeline")
+        assume(not S.ecall_is_valid(int(regs0[17])))
+        prog = [ADD(sym_int("p_rd", 0, 4), R("p_rs1"), R("p_rs2"))]
+        if older == 2:
+            prog.append(ADDI(5, 6, 1))
+        prog = prog + [ECALL(), ADDI(7, 7, 1), ADDI(8, 8, 1)]
+        load(st, prog)
+        sim = RiscvSimulation(state=st)
+        try:
+            for _ in range(12):
+                sim.step()
+        except InstructionExecutionException as ex:
+            reach("fault")
+            check("names_the_ecall_address_%d" % older, ex.address == 4 * older)
+            check("names_the_ecall_text_%d" % older, ex.instruction_repr == "ecall")
+            check("older_instruction_completed_%d" % older, st.performance_metrics.instruction_count == sym_int("icount", 0) + older)
+            check("younger_had_no_effect_%d" % older, int(st.register_file.registers[7]) == int(regs0[7]) and int(st.register_file.registers[8]) == int(regs0[8]))
+            continue
+        check("must_fault_%d" % older, False)
